@@ -25,6 +25,7 @@ EXPLANATION = (
     ' Round 4: a signal that signal_init() does not replace (SIGCONT) is restored only under a flag raised where it is replaced; the Twisted capturing wrapper catches BaseException (C13.1).'
     ' Round 5: (7) TrioEventLoop takes off at most the one ExceptionGroup layer its own nursery adds; (8) PAIR: every hook MainLoop.start() registers (idle callback, input watchers, descriptor-change signal, started screen) is released by stop() on all its normal paths and _run() passes stop() on the normal and on the exceptional exit (before fix 35c16b8 an exception-terminated run() left the watchers and the idle redraw in the event loop); a `finally` around event_loop.run() must not contain return / raise / break.'
     ' Round 6: (9) MEMO: every PopUpTarget entry point calls _update_overlay() before it routes to _current_widget (a batch of events is delivered without a redraw in between); (11) start() drops the cached screen size (fix for two sessions with a resize in between); (12) the flag that suppresses the signal-key snapshot in _start() is lowered where _stop() restores the snapshot (fix 69fb61c).'
+    ' Round 7: (13) event-name words are looked for by containment (is_mouse_event: every mouse report reaches mouse_event()); (14) every write of Screen._stop() is followed by a flush() on every way to its end.'
 )
 NOT_DECIDED = "That the terminal really ends up in its initial modes (needs a pty), delivery order across reads, redraw-before-wait timing, failures inside MainLoop.start()/stop() themselves."
 ASSUMPTIONS = ["glib_loop.py cannot be imported here; its reports are informational only."]
@@ -622,6 +623,49 @@ def rule_snapshot_per_session(ctx: Ctx) -> RuleResult:
     return rr
 
 
+def rule_stop_flushed(ctx: Ctx) -> RuleResult:
+    """'leaving the terminal in its initial modes' is about what has reached the terminal when stop() returns, not about
+    what sits in the output stream's buffer.  Every escape sequence Screen._stop() writes (directly or through a
+    helper of the class) is followed, on every way to the end of _stop(), by a flush() - directly or through a helper
+    whose every normal path flushes.  The disable sequences for bracketed paste / focus reporting written *after* the
+    only flush stay in a block-buffered stream: the terminal keeps the modes on."""
+    p = ctx.p
+    rr = RuleResult("PASS", "C12.14", "every write of Screen._stop() is followed by a flush() on every way to its end", floor=2)
+    fi = p.func(f"{PSX}._stop")
+    cfg = cfg_of(fi)
+    cls = p.cls(PSX)
+
+    def method(name):
+        r = p.find_member(cls, name)
+        return r[1] if r and r[0] == "method" else None
+
+    def helper_flushes(name, seen=()):
+        g = method(name)
+        if g is None or name in seen:
+            return False
+        gcfg = cfg_of(g)
+        fl = nodes_where(gcfg, lambda c: isinstance(c, ast.Call) and isinstance(c.func, ast.Attribute) and (c.func.attr == "flush" or (isinstance(c.func.value, ast.Name) and c.func.value.id == g.self_name and helper_flushes(c.func.attr, (*seen, name)))))
+        return bool(fl) and gcfg.must_pass(gcfg.entry, fl, ends=[gcfg.exit], labels=("n", "T", "F"))
+
+    def helper_writes(name, seen=()):
+        g = method(name)
+        if g is None or name in seen:
+            return False
+        return any(isinstance(c, ast.Call) and isinstance(c.func, ast.Attribute) and (c.func.attr == "write" or (isinstance(c.func.value, ast.Name) and c.func.value.id == g.self_name and c.func.attr not in ("flush",) and helper_writes(c.func.attr, (*seen, name)))) for c in g.own_nodes())
+
+    flushes = nodes_where(cfg, lambda c: isinstance(c, ast.Call) and isinstance(c.func, ast.Attribute) and isinstance(c.func.value, ast.Name) and c.func.value.id == fi.self_name and (c.func.attr == "flush" or helper_flushes(c.func.attr)))
+    writes = nodes_where(cfg, lambda c: isinstance(c, ast.Call) and isinstance(c.func, ast.Attribute) and isinstance(c.func.value, ast.Name) and c.func.value.id == fi.self_name and (c.func.attr == "write" or helper_writes(c.func.attr)))
+    if not writes or not flushes:
+        raise AnalysisError("Screen._stop: writes / flushes not found")
+    for w in writes:
+        # a node that writes and flushes itself (a helper ending in flush()) is its own flush
+        ok = w in flushes or cfg.must_pass(w, [f for f in flushes if f is not w], ends=[cfg.exit], labels=("n", "T", "F"))
+        rr.inst(norm(w.stmt, 50), True, {"write": norm(w.stmt, 60), "flushed_before_the_end": ok})
+        if not ok:
+            rr.add(finding("PASS", fi, w.stmt, f"`{norm(w.stmt, 60)}` writes to the terminal and _stop() can end without a flush() after it: with a block-buffered output stream the sequence has not reached the terminal when stop() / run() returns - the mode it switches off stays on", construct=f"write not flushed: {norm(w.stmt, 40)}"))
+    return rr
+
+
 def run(ctx: Ctx):
     return [
         rule_run_restores(ctx),
@@ -636,6 +680,7 @@ def run(ctx: Ctx):
         rule_size_reasked(ctx),
         rule_snapshot_per_session(ctx),
         _nameprefix(ctx),
+        rule_stop_flushed(ctx),
         _redraw_armed(ctx),
     ]
 
@@ -645,6 +690,7 @@ from ..mutants import Mut  # noqa: E402
 _M = "urwid/event_loop/main_loop.py"
 _P = "urwid/display/_posix_raw_display.py"
 MUTANTS = [
+    Mut("stop-disables-after-the-flush", _P, "urwid.display._posix_raw_display.Screen._stop", "        if self.bracketed_paste_mode:\n            self.write(escape.DISABLE_BRACKETED_PASTE_MODE)\n\n        if self.focus_reporting:\n            self.write(escape.DISABLE_FOCUS_REPORTING)\n\n", "", "PASS|display._posix_raw_display.Screen._stop|write not flushed", also=[("        self._stop_mouse_restore_buffer()\n", "        self._stop_mouse_restore_buffer()\n        if self.focus_reporting:\n            self.write(escape.DISABLE_FOCUS_REPORTING)\n        if self.bracketed_paste_mode:\n            self.write(escape.DISABLE_BRACKETED_PASTE_MODE)\n")]),
     Mut("mouse-event-test-as-prefix", "urwid/util.py", "is_mouse_event", '"mouse" in ev[0]', 'isinstance(ev[0], str) and ev[0].startswith("mouse ")', "SIB|util.is_mouse_event|'mouse' tested as a prefix"),
     Mut("signal-keys-snapshot-once", _P, "urwid.display._posix_raw_display.Screen._stop", "            self._signal_keys_set = False\n", "", "PAIR|display._posix_raw_display.Screen._stop|restore leaves _signal_keys_set raised"),
     Mut("start-keeps-cached-screen-size", _M, "MainLoop.start", "        self.screen_size = None\n", "", "PASS|event_loop.main_loop.MainLoop.start|start() keeps the cached screen_size"),
